@@ -138,3 +138,9 @@ void vsim_poke_tls13_using_psk(ssl_t *ssl)
     (void) ssl;
 #endif
 }
+
+/* byzantine peer: account a foreign handshake message in this node's own running transcript (TLS <= 1.2) */
+void vsim_byz_update_hash(const void *ssl, const unsigned char *msg, size_t len)
+{
+    if (ssl && msg && len) { (void) sslUpdateHSHash((ssl_t *) ssl, msg, (psSize_t) len); }
+}
